@@ -1,25 +1,24 @@
-"""Per-property stage tables (DESIGN.md section 5)."""
-from runner import Stage
+"""Collects per-property definitions from tools/propdefs/cXX.py.
 
-Q, T = "quick", "thorough"
+Each module defines:  PROP = "Cxx";  CFG = dict(stages=[...], rule=..., assumptions=[...], min_counts={...}, post=fn?)
+                      META = dict(level_text=..., design_ref=..., level_note=..., technique=...)
+"""
+import importlib
+import os
+import pkgutil
+import sys
 
-
-def seq(name, variant, src, quick, thorough, **kw):
-    return Stage(name, variant, ["harness/" + src], {Q: quick, T: thorough}, **kw)
-
+HERE = os.path.dirname(os.path.abspath(__file__))
+sys.path.insert(0, HERE)
 
 PROPS = {}
+METAS = {}
 
-PROPS["C06"] = dict(
-    stages=[
-        seq("asan", "asan", "c06_pq.c", 40000, 4000000),
-        seq("rel", "rel", "c06_pq.c", 10000, 1000000),
-    ],
-    rule=("case = PRNG-derived sequence of 10-300 priority-queue operations (push, push_ref with/without handle, pop, top, "
-          "remove by live/dead/never-used handle, clear) on a dynamic or fenced static queue with item size from "
-          "{1,2,8,9,16,24,100,127,128,129,200,256,300}; after EVERY operation the queue is compared with a reference multiset "
-          "and all handle/backpointer/heap-order invariants are checked. non-trivial = at least 3 distinct mechanisms "
-          "observed in the case (see mechanisms_observed); distinct = distinct FNV fingerprints of (configuration, op stream)."),
-    assumptions=["comparator is a total preorder on the key byte", "harness allocator never fails (library aborts on OOM)"],
-    min_counts={"any": {"remove_middle": 10, "handle_array_created_late": 10, "sliced_swap_item_gt_128": 10}},
-)
+import propdefs  # noqa: E402
+
+for _m in sorted(pkgutil.iter_modules(propdefs.__path__), key=lambda m: m.name):
+    mod = importlib.import_module("propdefs." + _m.name)
+    if getattr(mod, "PROP", None) and getattr(mod, "CFG", None):
+        PROPS[mod.PROP] = mod.CFG
+        if getattr(mod, "META", None):
+            METAS[mod.PROP] = mod.META
